@@ -40,6 +40,8 @@ class Mod:
         self.attrgroups = {}   # id -> attr text
         self.namedmd = []      # (name, [ids])  (textual order, may repeat names)
         self.mds = {}          # id -> (distinct, [field texts], [refs ids])
+        self.blockaddrs = []   # (function name, block name) of named blocks of named defined functions: available blockaddress targets
+        self.uselist = []      # module-level use-list orders on blockaddress constants
 
 
 TYNAMES = ["T1", "T2", "T10", "S", "struct.a", "U"]
@@ -140,6 +142,28 @@ def gen_mod(rng, size=1.0):
             gen_body(rng, m, f, named_g, named_f, mdids)
         if f["blocks"] is not None and mdids and rng.random() < 0.3:
             f["md"] = rng.choice(mdids)
+    for f in m.funcs:
+        if f["name"] and f["blocks"]:
+            for b in f["blocks"]:
+                if b["name"]:
+                    m.blockaddrs.append((f["name"], b["name"]))
+    if m.blockaddrs:
+        taken = {g["name"] for g in m.globals}
+        for k in range(rng.randint(0, 2)):
+            fn, bn = rng.choice(m.blockaddrs)
+            nm = "ba%d" % k
+            if nm not in taken:
+                m.globals.insert(rng.randint(0, len([g for g in m.globals if g["kind"] == "G"])),
+                                 {"kind": "G", "name": nm, "ty": "i8*", "init": "blockaddress(@%s, %%%s)" % (fn, bn), "refs": [fn], "comdat": None, "md": None, "linkage": ""})
+        for i in list(m.mds):
+            if rng.random() < 0.25:
+                fn, bn = rng.choice(m.blockaddrs)
+                d, fields, refs = m.mds[i]
+                m.mds[i] = (d, fields + ["i8* blockaddress(@%s, %%%s)" % (fn, bn)], refs)
+                m.mds[i] = m.mds[i] + ([fn],)
+        if rng.random() < 0.3:
+            fn, bn = rng.choice(m.blockaddrs)
+            m.uselist.append((fn, bn))
     return m
 
 
@@ -411,9 +435,11 @@ def render(m, rng=None, shuffle=False):
         sk.append("N|%s|%s" % (name, " ".join("M=%d" % i for i in ids)))
     mds = []
     for i in sorted(m.mds):
-        d, fields, refs = m.mds[i]
+        d, fields, refs = m.mds[i][0], m.mds[i][1], m.mds[i][2]
+        frefs = m.mds[i][3] if len(m.mds[i]) > 3 else []
         mds.append("!%d = %s!{%s}" % (i, "distinct " if d else "", ", ".join(fields)))
-        sk.append("M|%d|%s" % (i, " ".join("M=%d" % r for r in refs)))
+        sk.append("M|%d|%s" % (i, " ".join(["M=%d" % r for r in refs] + ["G=" + x for x in frefs])))
+    uls = ["uselistorder i8* blockaddress(@%s, %%%s), { 1, 0 }" % (fn, bn) for fn, bn in m.uselist]
     if not shuffle:
         parts = []
         if head: parts.append("\n".join(head))
@@ -425,6 +451,7 @@ def render(m, rng=None, shuffle=False):
         if ags: parts.append("\n".join(ags))
         if nmd: parts.append("\n".join(nmd))
         if mds: parts.append("\n".join(mds))
+        if uls: parts.append("\n".join(uls))
         text = "\n\n".join(parts) + "\n"
     else:
         # keep relative order of the entities whose numbering/merging depends on textual order
@@ -439,7 +466,7 @@ def render(m, rng=None, shuffle=False):
         pos = sorted(rng.randint(0, len(out)) for _ in unmerged)
         for k, (p, e) in enumerate(zip(pos, unmerged)):
             out.insert(p + k, e)
-        text = "\n".join(head + out) + "\n"
+        text = "\n".join(head + out + uls) + "\n"
     return text, ";".join(sk)
 
 
@@ -541,6 +568,19 @@ def faults(rng, text, sk):
             if idx:
                 sk2 = ";".join(ents[:idx[0] + 1] + [ents[idx[0]]] + ents[idx[0] + 1:])
                 out.append((kind, "error", "\n".join(lines[:i + 1] + [lines[i]] + lines[i + 1:]), sk2))
+    # type redefinitions involving `opaque`: only "opaque first, body later" is tolerated
+    tdefs = [(i, re.match(r"^%([\w.]+) = type \{", l).group(1)) for i, l in enumerate(lines) if re.match(r"^%([\w.]+) = type \{", l)]
+    if tdefs:
+        i, name = rng.choice(tdefs)
+        ents = sk.split(";")
+        idx = [k for k, e in enumerate(ents) if e.split("|")[0] == "T" and e.split("|")[1] == name]
+        if idx:
+            op_ent = "T|%s|!opaque" % name
+            op_line = "%%%s = type opaque" % name
+            out.append(("redefine-type-as-opaque", "error", "\n".join(lines[:i + 1] + [op_line] + lines[i + 1:]),
+                        ";".join(ents[:idx[0] + 1] + [op_ent] + ents[idx[0] + 1:])))
+            out.append(("opaque-then-body", "ok", "\n".join(lines[:i] + [op_line] + lines[i:]),
+                        ";".join(ents[:idx[0]] + [op_ent] + ents[idx[0]:])))
     # duplicated local: give a second value definition the name of the first one in the same function
     for j, l in enumerate(lines):
         if l.startswith("define "):
